@@ -11,9 +11,9 @@ CHECKS = {
     "C03": dict(category="exploration", technique="runtime monitoring: load monitor (compile+exec of emitted text, annotations evaluated in scope) + ast census over key-style workloads",
                 text="Every emitted module is executed with only its own imports and its annotations evaluated in scope; names are censused from the ast.", note=TB, ref="4 C03"),
     "C04": dict(category="translation_validation", technique="runtime monitoring: per emitted program, class table from framework introspection compared with an independent rendering of the registry IR",
-                text="Translation validation per emitted program: loaded module vs independent rendering of ModelRegistry.models_map, field by field.", note=TB, ref="4 C04"),
+                text="Translation validation per emitted program: loaded module vs independent rendering of ModelRegistry.models_map, field by field; field names also against a generator object made for a neutrally named copy of the model.", note=TB, ref="4 C04"),
     "C05": dict(category="exploration", technique="runtime monitoring: merge monitor wrapped around ModelRegistry.merge_models (snapshot, union-find reference partition, registry and pointer-graph walk)",
-                text="All similarity graphs on <=5 models (exhaustive; n=6 sampled in quick, complete in thorough) through a table-driven comparator, plus random inputs with the real comparators; each merge_models call is observed by the monitor.", note=TB, ref="4 C05"),
+                text="All similarity graphs on <=5 models (exhaustive; n=6 sampled in quick, complete in thorough) through a table-driven comparator, plus random inputs with the real comparators; key sets that coincide when joined with a separator; each merge_models call is observed by the monitor.", note=TB, ref="4 C05"),
     "C06": dict(category="exploration", technique="runtime monitoring: byte comparison of outputs of the same generations executed in fresh processes under different PYTHONHASHSEED values and perturbed heap layouts (library batch runner + real CLI subprocesses)",
                 text="Each case is generated in >=7 process environments; any differing byte is a violation.", note=TB + " Memory layouts are perturbed, not enumerated.", ref="4 C06"),
     "C07": dict(category="exploration", technique="runtime monitoring: canonical unfolding of the loaded emitted class graph compared across all permutations / duplications of the sample list",
@@ -37,11 +37,11 @@ CHECKS = {
     "C16": dict(category="exploration", technique="runtime monitoring: real CLI subprocesses; stdout after the header / -o file compared with the library text obtained by an independent reference front end",
                 text="File splittings, lookups, -m/-l, globs, json/yaml/ini x all documented options.", note=TB, ref="4 C16"),
     "C17": dict(category="fault_enumeration", technique="runtime monitoring: fault injection into real CLI subprocesses (fault kinds x positions x target states, sys.monitoring failpoints via sitecustomize) observed by exit status, stdout, target bytes, audit-hook trace and strace",
-                text="The list of fault kinds is enumerated completely (x position x target state); failpoints sampled in quick, every index in thorough.", note=TB, ref="4 C17"),
+                text="The list of fault kinds is enumerated completely (x position x target state); failpoints sampled in quick, every index in thorough; four kinds also through a Cli object in a process with another sys.argv.", note=TB, ref="4 C17"),
     "C18": dict(category="exploration", technique="runtime monitoring: instance monitor - every routed sample object is passed to the emitted attrs/dataclass class; attributes compared with the path-wise parse of the original / identity",
                 text="Pseudo-typed fields at Optional/List/Dict paths up to depth 3, empties and nulls x attrs/dataclasses x converters on/off.", note=TB, ref="4 C18"),
     "C19": dict(category="exploration", technique="runtime monitoring: ast of real CLI stdout under hostile argv (quote runs, backslashes, newlines, non-ASCII in preamble, file names, patterns); nonce-tagged preamble located between imports and classes",
-                text="Hostile argv / preamble texts x frameworks x layouts through real subprocesses; 1 in 5 on a Cli object that ran before with another preamble.", note=TB, ref="4 C19"),
+                text="Hostile argv / preamble texts x frameworks x layouts through real subprocesses; 1 in 5 on a Cli object that ran before with another preamble; a failing command line is judged against a twin differing only in the hostile text.", note=TB, ref="4 C19"),
 }
 NOT_YET = {}
 props = [json.loads(l) for l in open(os.path.join(HERE, "properties.jsonl"))]
